@@ -1,8 +1,134 @@
+/-
+C06 — the Content-Range / Range codec (`RangeString`, `ParseRange`, `chunkRange`)
+on integers: which half-open ranges survive the wire format, and how
+Content-Length disambiguates the shared wire form `0-0`.
+-/
 import OciModel.ReqCodec
+import OciModel.Props.C03
+import OciModel.Props.C07
 namespace OciModel.Props.C06
 open OciModel.ReqCodec
 
+/-! ### R3 -/
+
 /-- `0-0` is read as the empty range. -/
 theorem parseRange_zero : parseRange 0 0 = (0, 0) := by decide
+
+/-! ### R1: which ranges survive `RangeString` then `ParseRange` -/
+
+/-- Every half-open range `[s, e)` with `0 ≤ s ≤ e` survives the codec, except `[0, 1)`. -/
+theorem rangeString_parseRange (s e : Int) (hs : 0 ≤ s) (he : s ≤ e) (hne : (s, e) ≠ (0, 1)) :
+    parseRange (rangeString s e).1 (rangeString s e).2 = (s, e) := by
+  have hne' : ¬ (s = 0 ∧ e = 1) := fun h => hne (by rw [h.1, h.2])
+  unfold rangeString parseRange
+  simp only [Prod.mk.injEq, true_and]
+  split <;> split <;> omega
+
+/-- The one exception: `[0, 1)` is printed as `0-0`, which is read back as the empty
+range `[0, 0)` (the wire form `0-0` is shared by `[0,0)` and `[0,1)`). -/
+theorem rangeString_parseRange_zero_one :
+    parseRange (rangeString 0 1).1 (rangeString 0 1).2 = (0, 0) := by decide
+
+/-- `[0,0)` and `[0,1)` have the same wire form. -/
+theorem rangeString_zero_zero_eq_zero_one : rangeString 0 0 = rangeString 0 1 := by decide
+
+/-- The exact characterisation in one statement. -/
+theorem rangeString_parseRange_iff (s e : Int) (hs : 0 ≤ s) (he : s ≤ e) :
+    parseRange (rangeString s e).1 (rangeString s e).2 = (s, e) ↔ (s, e) ≠ (0, 1) := by
+  constructor
+  · intro h hse
+    simp only [Prod.mk.injEq] at hse
+    obtain ⟨rfl, rfl⟩ := hse
+    revert h; decide
+  · exact rangeString_parseRange s e hs he
+
+example : parseRange (rangeString 5 5).1 (rangeString 5 5).2 = (5, 5) := by decide
+example : parseRange (rangeString 0 0).1 (rangeString 0 0).2 = (0, 0) := by decide
+example : parseRange (rangeString 0 2).1 (rangeString 0 2).2 = (0, 2) := by decide
+
+/-! ### R2: `chunkRange` -/
+
+/-- With the right Content-Length every range `[s, e)`, `0 ≤ s ≤ e`, reaches the backend
+exactly — including `[0,1)` (Content-Length 1 disambiguates `0-0`) and the empty ranges. -/
+theorem chunkRange_exact (s e : Int) (hs : 0 ≤ s) (he : s ≤ e) :
+    chunkRange (some (rangeString s e)) (e - s) = some (s, e) := by
+  unfold chunkRange rangeString parseRange
+  simp only
+  split <;> split <;> split <;> split <;>
+    first
+      | omega
+      | (simp only [Option.some.injEq, Prod.mk.injEq, true_and] at *; omega)
+
+example : chunkRange (some (rangeString 0 1)) 1 = some (0, 1) := by decide
+example : chunkRange (some (rangeString 0 0)) 0 = some (0, 0) := by decide
+example : chunkRange (some (rangeString 7 7)) 0 = some (7, 7) := by decide
+
+/-- A Content-Range whose implied length differs from a known Content-Length is
+rejected (400), except for the `0-0` header with Content-Length 1. -/
+theorem chunkRange_mismatch (a b s' e' cl : Int) (hp : parseRange a b = (s', e'))
+    (hcl : 0 ≤ cl) (hne : e' - s' ≠ cl) (hz : ¬ (cl = 1 ∧ s' = 0 ∧ e' = 0)) :
+    chunkRange (some (a, b)) cl = none := by
+  unfold chunkRange
+  simp only [hp]
+  rw [if_neg hz]
+  rw [if_pos ⟨hcl, hne⟩]
+
+example : parseRange 3 9 = (3, 10) ∧ chunkRange (some (3, 9)) 5 = none := by decide
+
+/-- The `0-0` header with Content-Length 1 is the first byte. -/
+theorem chunkRange_zero_zero_one : chunkRange (some (0, 0)) 1 = some (0, 1) := by decide
+
+/-- A consistent header is passed on as parsed. -/
+theorem chunkRange_match (a b s' e' : Int) (hp : parseRange a b = (s', e'))
+    (hz : ¬ (e' - s' = 1 ∧ s' = 0 ∧ e' = 0)) :
+    chunkRange (some (a, b)) (e' - s') = some (s', e') := by
+  unfold chunkRange
+  simp only [hp]
+  rw [if_neg hz]
+  simp
+
+/-- Unknown Content-Length (`-1`): the header is trusted. -/
+theorem chunkRange_unknown_length (a b : Int) :
+    chunkRange (some (a, b)) (-1) = some (parseRange a b) := by
+  unfold chunkRange
+  simp only
+  rw [if_neg (by omega), if_neg (by omega)]
+
+/-- Without a Content-Range the chunk is `[0, Content-Length)`. -/
+theorem chunkRange_none (cl : Int) : chunkRange none cl = some (0, max cl 0) := by
+  unfold chunkRange
+  simp only [Option.some.injEq, Prod.mk.injEq, true_and]
+  split <;> omega
+
+/-! ### Server side of the request codec (proved in `Props/C03.lean`, restated here because
+they carry C06's clause "no request causes a backend call with a syntactically invalid
+repository name, tag or digest") -/
+
+/-- **server_args_valid.** Whatever method, path and query the classifier accepts, every name it
+hands to a handler (and hence to the backend) is syntactically valid. -/
+theorem server_args_valid (unb64 : Bytes → Option Bytes) (validUTF8 : Bytes → Bool)
+    (m p : Bytes) (q : Bytes → Bytes) (r : Request)
+    (h : parse unb64 validUTF8 m p q = .ok r) :
+    (r.kind ≠ .ping → r.kind ≠ .catalogList → OciModel.Ref.isRepo r.repo = true) ∧
+    (r.digest ≠ [] → OciModel.Ref.isDigest r.digest = true) ∧
+    (r.tag ≠ [] → OciModel.Ref.isTag r.tag = true) ∧
+    (r.fromRepo ≠ [] → OciModel.Ref.isRepo r.fromRepo = true) :=
+  have hs := OciModel.Props.C03.parse_sound unb64 validUTF8 m p q r h
+  ⟨hs.1, hs.2.1, hs.2.2.1, hs.2.2.2.1⟩
+
+/-- **server_total (classifier).** The classifier is a total function of method, path and query:
+every request is classified or rejected with one of the nine parse errors. -/
+theorem classifier_total (unb64 : Bytes → Option Bytes) (validUTF8 : Bytes → Bool)
+    (m p : Bytes) (q : Bytes → Bytes) :
+    ∃ res : Except PErr Request, parse unb64 validUTF8 m p q = res :=
+  OciModel.Props.C03.parse_total unb64 validUTF8 m p q
+
+/-- **server_error_shape (status).** A failure written by `WriteError` has the status the table
+assigns to its code, else the error's own HTTP status, else 500 (C07's `hop_status`). -/
+theorem error_status (S : Nat → Bytes) (C compact : Bytes → Bytes) (table : List (Bytes × Nat))
+    (stdMsg : Bytes → Bytes) (e : OciModel.ErrCodec.Err) :
+    OciModel.ErrCodec.asHTTP (OciModel.ErrCodec.hop S C compact table stdMsg false e) =
+      some (OciModel.ErrCodec.wireStatus table e) :=
+  OciModel.Props.C07.hop_status S C compact table stdMsg e
 
 end OciModel.Props.C06
